@@ -52,6 +52,10 @@ func checkC07(c *Ctx) {
 	c07IV(c)
 	c07Deliver(c)
 	c07ByVersion(c)
+	c07MustDecrypt(c)
+	if n := completeCopies(c, "G-COPY-complete", "gmtls", func(f *ssa.Function) bool { return f.Name() == "marshal" || f.Name() == "unmarshal" }); n < 10 {
+		c.Undecided("G-COPY-complete", "gmtls", "copies into fresh buffers", fmt.Sprintf("only %d found", n), token.NoPos)
+	}
 	// c07Bounds(c) -- record-layer buffer bounds: needs heap post-conditions, not armed
 }
 
@@ -842,5 +846,100 @@ func c07ByVersion(c *Ctx) {
 		}
 		want := vn == "VersionGMSSL" || vn == "VersionTLS11" || vn == "VersionTLS12"
 		c.Check(rx == tx && rx == want, rule, fname(dec), "explicit CBC IV for "+vn+": sender and receiver agree", "", fmt.Sprintf("for %s the sender writes an explicit IV: %v, the receiver expects one: %v, the protocol requires: %v", vn, tx, rx, want), dec.Pos())
+	}
+}
+
+// c07MustDecrypt: every record that readRecord accepts went through halfConn.decrypt — the call dominates every
+// delivery point, the restart for dropped warning alerts and every return after the record body was read — so no
+// record (an empty one included) escapes the MAC / AEAD check and the sequence-number step. And Read pulls a new
+// record only when no decrypted application data is pending (otherwise an early close_notify would cut off bytes
+// that were already authenticated but not yet delivered).
+func c07MustDecrypt(c *Ctx) {
+	rule := "G-C07-mustdecrypt"
+	f := c.Fn("gmtls", "(*Conn).readRecord")
+	if f == nil {
+		c.Missing(rule, "gmtls.(*Conn).readRecord", "method", "not found")
+		return
+	}
+	decs := callsNamedIn(f, "decrypt")
+	splits := callsNamedIn(f, "splitBlock")
+	c.Evals++
+	if len(decs) != 1 || len(splits) != 1 {
+		c.Violated(rule, fname(f), "one decrypt per record", fmt.Sprintf("%d decrypt calls, %d splitBlock calls", len(decs), len(splits)), f.Pos())
+		return
+	}
+	dec, split := decs[0], splits[0]
+	// everything reachable after the record was cut off the raw input is dominated by decrypt
+	bad := ""
+	seen := reach([]*ssa.BasicBlock{split.Block()}, nil)
+	for b := range seen {
+		if b == split.Block() || b == dec.Block() {
+			continue
+		}
+		if !dec.Block().Dominates(b) && instrReaches(split, b.Instrs[0], nil) {
+			// blocks that can also be reached without passing the split (the loop head) are fine
+			if !split.Block().Dominates(b) {
+				continue
+			}
+			bad = c.P.pos(lastPos(b))
+		}
+	}
+	c.Check(bad == "" && instrDominates(split, dec), rule, fname(f), "every record cut from the input is decrypted before anything else happens to it", "", "code at "+bad+" handles a record without halfConn.decrypt having run (e.g. decrypt is skipped for empty records): such a record is accepted without MAC/AEAD check and without advancing the sequence number", dec.Pos())
+	// Read: a new record is pulled only when no decrypted input is pending
+	rd := c.Fn("gmtls", "(*Conn).Read")
+	if rd == nil {
+		c.Missing(rule, "gmtls.(*Conn).Read", "method", "not found")
+		return
+	}
+	isInputNil := func(ifi *ssa.If) (nilEdge int, ok bool) {
+		bo, isBo := ifi.Cond.(*ssa.BinOp)
+		if !isBo || (bo.Op != token.EQL && bo.Op != token.NEQ) || !isNilConst(bo.Y) {
+			return 0, false
+		}
+		ld, isLd := bo.X.(*ssa.UnOp)
+		if !isLd {
+			return 0, false
+		}
+		fa, isFA := ld.X.(*ssa.FieldAddr)
+		if !isFA || fieldName(fa.X.Type(), fa.Field) != "input" {
+			return 0, false
+		}
+		if bo.Op == token.EQL {
+			return 0, true
+		}
+		return 1, true
+	}
+	n := 0
+	for _, call := range callsNamedIn(rd, "readRecord") {
+		n++
+		c.Evals++
+		ok := false
+		for _, ifi := range ifsOf(rd) {
+			e, is := isInputNil(ifi)
+			if !is {
+				continue
+			}
+			t := ifi.Block().Succs[e]
+			if len(t.Preds) == 1 && (t == call.Block() || t.Dominates(call.Block())) {
+				// no assignment to c.input between the test and the call
+				clean := true
+				instrsOf(rd, func(_ *ssa.BasicBlock, in ssa.Instruction) {
+					if st, isSt := in.(*ssa.Store); isSt {
+						if fa, isFA := st.Addr.(*ssa.FieldAddr); isFA && fieldName(fa.X.Type(), fa.Field) == "input" && !isNilConst(st.Val) {
+							if instrReaches(ifi, st, nil) && instrReaches(st, call, nil) && t.Dominates(st.Block()) {
+								clean = false
+							}
+						}
+					}
+				})
+				if clean {
+					ok = true
+				}
+			}
+		}
+		c.Check(ok, rule, fname(rd), fmt.Sprintf("readRecord call #%d only when no decrypted application data is pending", n), "", "Read can pull the next record while c.input still holds undelivered bytes: a close_notify (or error) in that record makes Read report the end of the stream before those bytes are delivered", call.Pos())
+	}
+	if n < 2 {
+		c.Undecided(rule, fname(rd), "readRecord calls", fmt.Sprintf("only %d found", n), rd.Pos())
 	}
 }
